@@ -15,10 +15,20 @@ ASSUMPTIONS = [
 ]
 
 HOOK_COMMITS = ["aa112f6"]
-FIX_COMMITS = ["536bdea", "2163003", "086d718"]
+FIX_COMMITS = ["536bdea", "2163003", "086d718", "eebbb00", "ae8746e", "813750d"]
 NOT_YET = {}
 
 CFG = {
+    "C12": {
+        "cases": {"quick": 1600, "thorough": 160000},
+        "level_text": "Theorems (pure combinatorics, for every list order = every hash-iteration order) about the model: edge table lists each undirected edge once with its count; boundary walk consumes every boundary edge exactly once and never runs out of fuel; flood fill (patches, voxel clusters) yields an exact partition within a linear fuel bound; box table closed/oriented (decide over the regenerated table), cylinder winding. Model tied to the Rust by exhaustive small face lists + random meshes on every check.",
+        "level_note": "Trusted: Lean kernel, hand-written model validated by the correspondence run (HashMap/HashSet modelled as lists with free order; patches modelled at face level); edge lengths compared numerically.",
+        "files": ["src/geom3/mesh/edges.rs", "src/geom3/mesh/patches.rs", "src/geom3/mesh.rs", "src/raster3.rs", "src/common/indices.rs"],
+        "tol": {"*": 1e-9},
+        "extra_tier": {"thorough": ["--thorough"]},
+        "exhaustive": {"quick": "all face lists of 1..3 oriented triangles over 4 vertices (14424 lists), each under fresh hash seeds, plus random meshes",
+                       "thorough": "all face lists of 1..4 triangles over 4 vertices and 1..3 over 5 vertices, plus random meshes"},
+    },
     "C16": {
         "cases": {"quick": 1600, "thorough": 160000},
         "level_text": "Theorems about the model: deviation magnitude/sign/reconstruction (ℝ), Distance value/reversal, DevSet cached-extreme invariant for every new/push history, point-cloud length invariant for every history incl. rejected operations, tolerance-map = greatest breakpoint not above x. Model tied to the Rust by a differential run on every check.",
